@@ -108,6 +108,24 @@ func vRunCase11(t *testing.T, c vCase) (msg string) {
 		if qb != [3][4]uint64{q.x.E, q.y.E, q.z.E} {
 			return c.Op + " modified its element argument"
 		}
+	case "cselect-nil":
+		// every arrangement of a nil operand and a condition word: an error is returned and the receiver keeps its value
+		a, b := vScalarOf(t, big.NewInt(1234567)), vScalarOf(t, new(big.Int).Sub(vN, big.NewInt(99)))
+		for _, cond := range []uint64{0, 1, 2, 1 << 32, 1 << 63, ^uint64(0)} {
+			for w, ops := range [][2]*Scalar{{nil, b}, {a, nil}, {nil, nil}} {
+				r := vScalarOf(t, big.NewInt(55555))
+				err := r.CSelect(cond, ops[0], ops[1])
+				if err == nil {
+					return "CSelect with a nil operand (arrangement " + itoa(w) + ", cond " + utoa(cond) + ") returned no error"
+				}
+				if vScalarVal(r).Cmp(big.NewInt(55555)) != 0 {
+					return "CSelect with a nil operand (arrangement " + itoa(w) + ", cond " + utoa(cond) + ") returned an error but changed the receiver to " + r.Hex()
+				}
+			}
+		}
+		if vScalarVal(a).Cmp(big.NewInt(1234567)) != 0 {
+			return "CSelect with a nil operand modified its other operand"
+		}
 	case "scalar-views":
 		// every exported view of one scalar value against math/big: Encode, Hex, MarshalBinary and the three decoders
 		v := vBig(c.A)
